@@ -50,20 +50,33 @@ def run(ctx):
     reps = []
     if b:
         reps.append(ctx.correspond(b, "TestVerifC19", "svdriver_c19", "c19",
-                                   env={"VERIF_N": 10 if quick else 120,
+                                   env={"VERIF_N": 8 if quick else 120,
                                         "VERIF_C19_EXTRA": 8 if quick else 120,
-                                        "VERIF_C19_STRESS": 4 if quick else 8,
+                                        "VERIF_C19_STRESS": 3 if quick else 8,
                                         "VERIF_C19_FINDINGS": 2 if quick else 6},
                                    timeout=900 if quick else 3000))
+        # separate pass: ONLY the inputs of the two recorded findings (known_findings.txt:
+        # gzip-converter-keeps-zstd-mediatype, uncompressed-label-missing-preexisting-blob); the main
+        # pass above never generates them, so it keeps strict correspondence and a strict oracle
+        reps.append(ctx.correspond(b, "TestVerifC19Known", "svdriver_c19", "c19known",
+                                   env={"VERIF_C19_EXTRA": 4 if quick else 30}, timeout=900))
     if not quick:
         # the same scenarios under the race detector (about 13x slower): concurrent batches, retries,
-        # whole images; the table is skipped
+        # whole images, shared option slices, put stress; the table is skipped
         br = ctx.go_test_binary(PKG, "h_c19_race", race=True)
         if br:
             reps.append(ctx.correspond(br, "TestVerifC19", "svdriver_c19", "c19race",
                                        env={"VERIF_N": 6, "VERIF_C19_TABLE": 0, "VERIF_C19_FINDINGS": 1,
                                             "VERIF_C19_STRESS": 2, "VERIF_C19_CHILD_N": 16},
                                        timeout=3000))
+    # behaviours outside the clauses of C19, recorded as notes (harness stats keys "note:...")
+    seen = {}
+    for r in reps:
+        for k, v in ((r or {}).get("stats") or {}).items():
+            if k.startswith("note:"):
+                seen[k[5:]] = seen.get(k[5:], 0) + v
+    for k, v in sorted(seen.items()):
+        ctx.notes.append(f"outside C19, observed {v}x: {k}")
     programs = sum(int((r.get("stats") or {}).get("validated-conversions", 0)) for r in reps if r)
     return ctx.finish(
         level="translation_validation",
@@ -73,8 +86,10 @@ def run(ctx):
              "containerd.io/uncompressed label, estargz.Open+VerifyTOC and the metadata reader vs the TOC annotation, "
              "file contents, zstd:chunked footer vs manifest annotations, lossless: stream == source stream; external "
              "TOC: every converted digest has exactly one manifest layer whose TOC blob opens and verifies that layer). "
-             "Generated: ALL 76 rows of the media-type table (4 converters x 19 media types, content encoded as the "
-             "media type says) plus rows with mismatching content; batches of 3-9 layers (uncompressed/gzip/zstd, OCI "
+             "Generated: the rows of the 76-row media-type table (4 converters x 19 media types, content encoded as the "
+             "media type says; the 6+3 zstd-typed-layer-into-gzip-converter rows run in the separate known-findings pass, "
+             "the 16 non-layer-into-external-TOC rows are outside C19 and only probed once under recover) plus rows with "
+             "mismatching content; batches of 3-9 layers (uncompressed/gzip/zstd, OCI "
              "and Docker, duplicates, the same tar in two encodings, already-converted eStargz/zstd:chunked/"
              "external-TOC input) converted CONCURRENTLY by one converter instance with random common and per-layer "
              "options; conversions interrupted mid-stream / with garbage left under the writer ref / interrupted "
@@ -92,8 +107,8 @@ def run(ctx):
             "SHA-256 is an uninterpreted function; only lossless_keeps_stream assumes it does not collide on the two streams",
             "the content store behaves like containerd's plugins/content/local with a label store (resumable ingest per "
             "ref, Commit of an existing digest = AlreadyExists without touching labels)",
-            "option slices handed to a converter are not shared between conversions (exact-capacity slices in the main "
-            "stream); the shared-slice schedules are replayed separately as candidate findings",
+            "option slices: since 27b6c79 every convert func copies the slice per conversion; slices with spare capacity "
+            "are used in the concurrent batches and in dedicated child-process scenarios (a failure is a violation)",
         ],
         extra={"programs": programs,
                "disagreements_checked": ctx.cov["oracle_failures"] + ctx.cov["correspondence_mismatches"],
